@@ -10,7 +10,7 @@ class NotInSubset(Exception):
     pass
 
 
-_TOK = re.compile(r'\s*(?:(\d+[uUlL]*|0[xX][0-9a-fA-F]+[uUlL]*)|([A-Za-z_]\w*)|(->|\+=|-=|\*=|/=|&=|\|=|<<=|>>=|<<|>>|<=|>=|==|!=|&&|\|\||[-+*/%&|^~!<>=(){};,?:.\[\]]))')
+_TOK = re.compile(r'\s*(?:(0[xX][0-9a-fA-F]+[uUlL]*|\d+[uUlL]*)|([A-Za-z_]\w*)|(->|\+=|-=|\*=|/=|%=|\^=|&=|\|=|<<=|>>=|<<|>>|<=|>=|==|!=|&&|\|\||[-+*/%&|^~!<>=(){};,?:.\[\]]))')
 TYPEWORDS = {'void', 'char', 'short', 'int', 'long', 'unsigned', 'signed', 'static', 'const', 'float', 'double', '_Bool'}
 
 
@@ -129,7 +129,7 @@ class Parser:
     def expr(self):
         lhs = self.cond()
         tok = self.peek()
-        if tok[0] == 'p' and tok[1] in ('=', '+=', '-=', '*=', '/=', '&=', '|=', '<<=', '>>='):
+        if tok[0] == 'p' and tok[1] in ('=', '+=', '-=', '*=', '/=', '%=', '^=', '&=', '|=', '<<=', '>>='):
             self.eat()
             rhs = self.expr()
             return ('assign', tok[1], lhs, rhs)
